@@ -1,7 +1,7 @@
 CONSTANTS
-  WithDone = FALSE
+  WithDone = TRUE
   TrackerBug = "none"
-  Shapes <- ShapesThorough
+  Shapes <- ShapesQuick
 INIT Init
 NEXT NextD
 INVARIANTS TypeOK OnlySuccessful QuorumBacked ErrWhenExceeded AtMostOneCall CleanupSafe CleanupExactlyOnce UnusedCancelled ReturnedNotCancelled CompletedJustified CompletedWhenAllDone
